@@ -14,10 +14,10 @@ import (
 type underLockSpec struct {
 	Rule         string
 	Pkgs         []string
-	OwnerType    string   // struct owning the lock
-	Lock         string   // lock field name
-	AccessType   string   // struct whose field is accessed
-	Fields       []string // accessed fields
+	OwnerType    string            // struct owning the lock
+	Lock         string            // lock field name
+	AccessType   string            // struct whose field is accessed
+	Fields       []string          // accessed fields
 	Constructors map[string]string // function key -> reason (init phase)
 	Floor        int
 }
